@@ -692,7 +692,7 @@ def gen_spiral_case(rng: random.Random, lo: int, hi: int) -> Case:
 
 
 def generate(rng: random.Random, tier: str):
-    n_mem, n_disk, n_spiral, lo, hi = (2800, 900, 550, 5, 12) if tier == "quick" else (30000, 10000, 5000, 5, 15)
+    n_mem, n_disk, n_spiral, lo, hi = (2800, 900, 550, 5, 12) if tier == "quick" else (18000, 6000, 3000, 5, 15)
     out = [gen_case(rng, False, lo, hi) for _ in range(n_mem)]
     out += [gen_case(rng, True, lo, hi) for _ in range(n_disk)]
     out += [gen_spiral_case(rng, lo, hi) for _ in range(n_spiral)]
